@@ -44,13 +44,13 @@ struct Shared {
   Case c;
   PMutex *m = nullptr; PSpinLock *s = nullptr; PRWLock *rw = nullptr; PCondVariable *cv_ne = nullptr, *cv_nf = nullptr;
   std::deque<long> queue; long produced = 0, consumed_sum = 0, consumed_n = 0; size_t cap = 2;
-  std::atomic<long> tls_destroyed{0}; PUThreadKey *key = nullptr; std::vector<long> results;
+  std::atomic<long> tls_destroyed{0}; PUThreadKey *key = nullptr; std::vector<long> results; bool keyfree_round = false;
   long rec_counter = 0, rec_check = 0;         // plain, protected by the lock
   volatile pint word = 0; volatile psize pword = 0;
   vector<vector<long>> olds;                   // per thread returned values
   std::atomic<long> trues{0}, tryfail{0}, contended{0};
   pthread_barrier_t bar;
-  string error;
+  string error; std::atomic<bool> has_error{false}; std::atomic<long> t0_done{0};
   pthread_mutex_t errmx = PTHREAD_MUTEX_INITIALIZER;
   // litmus
   volatile pint x = 0, y = 0, flag = 0; long data = 0;
@@ -59,7 +59,7 @@ struct Shared {
   std::atomic<long> spin_arrive{0};
 };
 Shared *G = nullptr;
-void set_error(const string &e) { pthread_mutex_lock(&G->errmx); if (G->error.empty()) G->error = e; pthread_mutex_unlock(&G->errmx); }
+void set_error(const string &e) { pthread_mutex_lock(&G->errmx); if (G->error.empty()) G->error = e; pthread_mutex_unlock(&G->errmx); G->has_error.store(true); }
 
 inline void noise(unsigned &st) {
   st = st * 1103515245u + 12345u;
@@ -82,7 +82,7 @@ void *worker(void *arg) {
   if (k == "lockrec" || k == "trylockrec") {
     for (int i = 0; i < g.c.N; i++) {
       noise(st);
-      if (k == "trylockrec") { int spins = 0; while (!do_lock(true)) { g.tryfail++; if (++spins > 2000000) { set_error("trylock never succeeded (livelock?)"); return NULL; } sched_yield(); } }
+      if (k == "trylockrec") { while (!do_lock(true)) { g.tryfail++; sched_yield(); } } // no give-up count: elapsed time is never a verdict (the exact trylock semantics are decided by the scheduler engine)
       else if (!do_lock(false)) { set_error("lock returned FALSE"); return NULL; }
       long c = g.rec_counter;
       if (g.rec_check != c * 7) { set_error("protected record inconsistent inside a critical section (exclusion or visibility broken)"); do_unlock(); return NULL; }
@@ -145,9 +145,21 @@ void *worker(void *arg) {
   } else if (k == "mp") {
     // thread 0 writes, others read; repeated N times with barriers
     for (int i = 0; i < g.c.N; i++) {
-      if (ti == 0) { g.data = 1000 + i; p_atomic_int_set(&g.flag, i + 1); }
-      else { int spins = 0; while (p_atomic_int_get(&g.flag) != i + 1) { if (++spins > 50000000) { set_error("flag never observed"); return NULL; } } if (g.data != 1000 + i) { set_error("message passing: stale data read after the flag was observed (set/get are not barriers)"); return NULL; } }
+      // no verdict here depends on elapsed time: "never observed" is only reported once thread 0's set call is known to have
+      // returned (seq_cst harness flag) and a later get still misses it; an error never skips the barrier (the others wait there)
+      if (ti == 0) { g.data = 1000 + i; p_atomic_int_set(&g.flag, i + 1); g.t0_done.store(i + 1); }
+      else {
+        bool seen = false;
+        for (long spins = 0; !seen; spins++) {
+          bool after = g.t0_done.load() == i + 1;
+          if (p_atomic_int_get(&g.flag) == i + 1) seen = true;
+          else if (after) { set_error("message passing: p_atomic_int_get does not return the value stored by a p_atomic_int_set call that had already returned"); break; }
+          else if (spins > 100000) sched_yield();
+        }
+        if (seen && g.data != 1000 + i) set_error("message passing: stale data read after the flag was observed (set/get are not barriers)");
+      }
       pthread_barrier_wait(&g.bar);
+      if (g.has_error.load()) break; // set before the barrier, so every thread leaves in the same round
     }
   } else if (k == "sb" || k == "sbset" || k == "sbget") {
     // sb: set + get; sbset: set + plain volatile load (set alone must be a full barrier); sbget: plain volatile store + get
@@ -184,17 +196,23 @@ ppointer thr_body(ppointer arg) {
   p_uthread_set_local(g.key, malloc(8));
   if (i % 2) p_uthread_replace_local(g.key, malloc(8));     // +1 notifier call now, +1 at exit
   g.results[(size_t)i] = 1000 + i;                             // plain store, read by main after join
+  if (g.keyfree_round) { pthread_barrier_wait(&g.bar); /* main releases the key reference here */ pthread_barrier_wait(&g.bar); }
   if (i % 3 == 0) p_uthread_exit((pint)(i + 5));
   return NULL;
 }
 Outcome run_threads_case(const Case &c) {
   Outcome o; Shared g; G = &g; g.c = c;
   auto fail = [&](const string &k, const string &m) { if (o.verdict.empty()) { o.verdict = m; o.klass = k; } };
-  int rounds = std::max(1, c.N / 200);
+  int rounds = std::max(2, c.N / 200);
   for (int r = 0; r < rounds && o.verdict.empty(); r++) {
     int T = c.T; g.results.assign((size_t)T, 0); g.tls_destroyed = 0; g.key = p_uthread_local_new(thr_tls_free);
     std::vector<PUThread *> hs;
+    // every other round: the key REFERENCE is released while the threads are alive and hold values ("doesn't remove the TLS key
+    // itself"): the values must still be destroyed exactly once when their threads exit
+    g.keyfree_round = (r % 2) == 1;
+    if (g.keyfree_round) pthread_barrier_init(&g.bar, NULL, (unsigned)T + 1);
     for (long i = 0; i < T; i++) hs.push_back(p_uthread_create(thr_body, (ppointer)i, TRUE, i % 2 ? "rt-thread" : NULL));
+    if (g.keyfree_round) { pthread_barrier_wait(&g.bar); p_uthread_local_free(g.key); g.key = NULL; pthread_barrier_wait(&g.bar); }
     long expect_destroy = 0;
     for (long i = 0; i < T; i++) {
       if (!hs[(size_t)i]) { fail("create", "p_uthread_create failed"); continue; }
@@ -206,8 +224,9 @@ Outcome run_threads_case(const Case &c) {
       p_uthread_unref(hs[(size_t)i]);
       expect_destroy += (i % 2) ? 2 : 1;
     }
-    if (g.tls_destroyed != expect_destroy) fail("tls-notifier", "TLS notifier ran " + std::to_string(g.tls_destroyed.load()) + " times, expected " + std::to_string(expect_destroy));
-    p_uthread_local_free(g.key);
+    if (g.tls_destroyed != expect_destroy) fail("tls-notifier", string(g.keyfree_round ? "[key reference released while the threads were alive] " : "") + "TLS notifier ran " + std::to_string(g.tls_destroyed.load()) + " times, expected " + std::to_string(expect_destroy));
+    if (g.key) p_uthread_local_free(g.key);
+    if (g.keyfree_round) pthread_barrier_destroy(&g.bar);
   }
   o.nontrivial = c.T >= 2; o.fp = vl::fnv1a(to_text(c)); vl::stats().klass("kind_thr"); G = nullptr;
   return o;
